@@ -442,11 +442,15 @@ def gen_object_cases(chk):
         nz = rng.randint(7, 16 if big else 10)
         npts = [rng.randint(4, 6), nq, nz, rng.randint(5, 8)]
         # displacement v*bz*dt / dz: dz = zMax/nz ~ 1500/nz; |v| <= 7.3: dt up to 3 periods
-        dz = 1506.759067 / nz
+        # the z period is a constant of its own (zMax): on odd cases it is not 2 pi R0, so that the twist per z step
+        # dz iota / R0 is not 2 pi iota / nz
+        zlen = 1506.759067 if k % 2 == 0 else [1000.0, 333.3, 2500.0][k % 3]
+        dz = zlen / nz
         dt = rng.choice([-1, 1]) * rng.choice([2.0, 0.37 * dz, 1.3 * dz, dz * nz * 0.4, dz / 7.32, 3 * dz / 7.32, dz * 0.5])
         iota = [0.0, 0.8, -1.3][k % 3]
         case = {'seed': chk.seed * 31 + k, 'npts': npts, 'degrees': [3, degq, 3 if k % 3 else [5, 1, 4][k % 9 // 3], 3], 'uniform': uni, 'dt': dt, 'iota': iota,
-                'slope': (0.05 if k % 5 == 4 else None), 'nsteps': 4 if big else 3, 'k': k, 'dom': None}
+                'slope': (0.05 if k % 5 == 4 else None), 'nsteps': 4 if big else 3, 'k': k,
+                'dom': None if k % 2 == 0 else [[0.1, 14.5], [0.0, 2 * math.pi], [0.0, zlen], [-7.32, 7.32]]}
         if k % 5 == 2:
             # whole-cell displacements on a real object: dz = 1/2, v = -4..4 (degree 1: Greville = break points),
             # no twist (bz = 1): zDist = -v*dt is an exact multiple of dz for every v
@@ -665,7 +669,7 @@ def run():
                         break
             if bad:
                 # an exception about the Fraction stand-in means the exact run could not execute the code: the correspondence broke
-                chk.violation('_getLagrangePts(exact):outcome', bad, replay, no_input=('model answers' in bad or "'Fraction' object" in bad or 'ufunc' in bad or 'not supported for the input types' in bad))
+                chk.violation('_getLagrangePts(exact):outcome', bad, replay, no_input=('model answers' in bad or "'Fraction' object" in bad or 'ufunc' in bad or 'not supported for the input types' in bad or 'SimpleNamespace' in bad))
             continue
         same = False
         if isinstance(impl, str) and impl.startswith('ok') and m[0].startswith('ok'):
